@@ -817,6 +817,25 @@ func (a *Analysis) classifyScalars() {
 							}
 						}
 					case *ssa.Call:
+						// an accessor that reads one byte of variant data (`s.peekAt(k)`): the same
+						// source as the read it stands for
+						if f := x.Common().StaticCallee(); f != nil && a.Scope[f] && isIntT(v.Type()) {
+							if ret, ok := ssax.PureExprFunc(f); ok {
+								isRead := false
+								switch rx := ret.(type) {
+								case *ssa.Index:
+									isRead = a.varStr[rx.X]
+								case *ssa.Lookup:
+									isRead = a.varStr[rx.X]
+								}
+								if isRead {
+									if a.srcOf[v] == nil {
+										changed = set(v, a.sourceForIndex(fn, v)) || changed
+									}
+									continue
+								}
+							}
+						}
 						// result of a module function that returns a derived scalar
 						for _, callee := range a.callees(fn, x) {
 							if callee.Blocks == nil || !a.Scope[callee] || callee.Signature.Results().Len() != 1 || !isIntT(v.Type()) && !isBoolT(v.Type()) {
